@@ -122,15 +122,16 @@ Fixpoint strip_base (fuel : nat) (B m e : Z) : Z * Z :=
   | S f => if m mod B =? 0 then strip_base f B (m / B) (e + 1) else (m, e)
   end.
 
-(** `while let Some(next) = pow.checked_mul(B) { digits += 1; if next > sig { break } pow = next }`
-    over DoubleWord = 2 * wbits bits *)
+(** `digits = 1; while let Some(next) = pow.checked_mul(B) { if next > sig { break } digits += 1; pow = next }`
+    over DoubleWord = 2 * wbits bits (the loop as it is since the repair a2caf12 of C08's finding: the current digit
+    is counted before the next power is formed) *)
 Fixpoint count_digits (fuel : nat) (B dmax sig pow digits : Z) : Z :=
   match fuel with
   | O => digits
   | S f =>
     let next := pow * B in
     if dmax <? next then digits            (* checked_mul overflowed *)
-    else if sig <? next then digits + 1
+    else if sig <? next then digits        (* next > significand: break *)
     else count_digits f B dmax sig next (digits + 1)
   end.
 
@@ -153,7 +154,7 @@ Definition fbig_from_parts_const (B wbits : Z) (s : sign) (u e p : Z) : Z * Z * 
         (m, e + shift, (blen m + bb - 1) / bb)
       else
         let '(m, e') := strip_base (Z.to_nat (blen u)) B u e in
-        (m, e', count_digits (Z.to_nat (2 * wbits)) B (2 ^ (2 * wbits) - 1) m 1 0) in
+        (m, e', count_digits (Z.to_nat (2 * wbits)) B (2 ^ (2 * wbits) - 1) m 1 1) in
     (signed s m, e', if digits <? p then p else digits).
 
 (** Repr::new normalises: no factor B left in the significand, zero has exponent 0 *)
